@@ -3,6 +3,7 @@ import cpc_rules as P
 import chains
 import cowrite
 import generic_lints
+import hazard_lints
 import predicates
 import twins
 import triggers
@@ -22,6 +23,7 @@ def run(facts, tier):
         ("couplings", lambda fa: cowrite.obligations(fa, ['u32_table']), 2, "fields that every mutator updates together (counters, extremes, cached values) are still updated together"),
         ("emptiness predicate support", lambda fa: predicates.obligations(fa, ['cpc_sketch_alloc']), 1, "the emptiness predicate still consults every field it depended on in the reviewed tree (spec/predicates.json)"),
         ("tautologies", lambda fa: generic_lints.tautologies(fa, ('cpc/',)), 2, "no comparison / assignment / min-max with two identical operands, no if-else with identical arms"),
+        ("hazards", lambda fa: hazard_lints.hazards(fa, ('cpc/',)), 2, "no 64-bit value silently narrowed at a call of a library function, no numeric_limits<floating>::min() as a lowest value, no random engine constructed inside a loop, no read of a moved-from parameter, no unguarded unsigned `x - c` loop bound (reviewed instances in spec/hazards.json)"),
         ("duplicate operands", lambda fa: generic_lints.duplicate_conjuncts(fa, ('cpc/',)), 2, "no logical chain tests the same operand twice (copy-paste of the wrong peer)"),
         ("forwarding peers", lambda fa: generic_lints.forwarding_peers(fa, ('cpc/',)), 7, "one-statement typed overloads forward to an overload of their own name, never to the head of a sibling family (wrong peer)"),
         ("overload twins", lambda fa: twins.overload_twins(fa, ('cpc/',)), 1, "const& and && overloads of one operation have identical bodies modulo std::move/forward"),
